@@ -211,6 +211,19 @@ CLAIMED["C05"] = dict(
     ref="DESIGN.md section 2 (C04-C09)",
     technique="TLA+ per-macro semantics evaluated by TLC as oracle for arena behaviours")
 
+CLAIMED["C09"] = dict(
+    text="The IO part of StlSem.tla gives the state an input and an output bit stream and one action per documented macro: hex.input_hex/input/"
+         "input_as_hex/input_dec_uint(_until)/input_dec_int(_until), hex.output/print/print_as_digit/print_uint/print_int/print_dec_uint/print_dec_int, "
+         "bit.input_bit/input, bit.output/print/print_as_digit/print_hex_uint/print_hex_int/print_dec_uint/print_dec_int, stl.bit2hex/hex2bit. The arena "
+         "device serves each step's input bits and collects the bits the macro under test writes (marker bits are told apart by a flag cell); TLC "
+         "(Trace_Stl) prescribes per step the variables, the branch (error branches included), the exact output bits and the number of input bits "
+         "consumed. Inputs: numerals at every boundary (0, powers of ten, 16^n +-1, most negative), an invalid byte at every position, empty input, missing "
+         "terminators, leading zeros and signs.",
+    note="Trusted: StlSem.tla (IO part) as transcription of the documentation. After a step's input the device serves zero bits (a real end of input ends the "
+         "whole run). The pointer-based buffer helpers of hex/strings.fj are not covered here. Values and inputs are seeded samples with boundary bias.",
+    ref="DESIGN.md section 2 (C04-C09)",
+    technique="TLA+ per-macro IO semantics evaluated by TLC as oracle for arena behaviours with scripted input and captured output")
+
 NOT_YET = {}
 
 
